@@ -92,7 +92,7 @@ func newFaulty(spec string, good byte) *faultyReader {
 
 func faultSpecs(thorough bool) []string {
 	specs := []string{"err", "short:1", "short:16", "short:31"}
-	ks := []int{0, 1, 16, 31, 32, 33, 47, 48, 49, 64, 79, 80, 81, 96}
+	ks := []int{0, 1, 16, 31, 32, 33, 48, 64, 80, 96}
 	if thorough {
 		ks = nil
 		for k := 0; k <= 130; k++ {
